@@ -569,6 +569,38 @@ def prioritised(graph, walks, covered):
             n = node_cache[s] = (repr(nd.get("js")), repr(nd.get("us")), repr(nd.get("canc")))
         return k + n
 
+    # class-targeted walks first: for every class one representative edge (a shallowest one) reached by a shortest path; they are
+    # short and share prefixes, so all classes of a graph are exercised in a small multiple of (classes x depth) steps
+    out = graph.out_edges()
+    parent, depth = {}, {}
+    for root in graph.init:
+        parent[root], depth[root] = None, 0
+        level = [root]
+        while level:
+            nxt = []
+            for u in level:
+                for (lab, v) in sorted(out.get(u, ())):
+                    if v not in parent:
+                        parent[v], depth[v] = (u, lab), depth[u] + 1
+                        nxt.append(v)
+            level = nxt
+    rep = {}
+    for e in graph.edges:
+        if e[0] not in depth:
+            continue
+        c = cls(e)
+        if c not in rep or depth[e[0]] < depth[rep[c][0]]:
+            rep[c] = e
+    targeted = []
+    for e in rep.values():
+        pth, u = [], e[0]
+        while parent[u] is not None:
+            pu, lab = parent[u]
+            pth.append((pu, lab, u))
+            u = pu
+        pth.reverse()
+        targeted.append(pth + [e])
+    walks = targeted + list(walks)
     wcls = [frozenset(cls(e) for e in wk) for wk in walks]
     seen = set()
     heap = [(-len(c) / max(1, len(walks[i])), i) for i, c in enumerate(wcls)]
@@ -590,6 +622,116 @@ def prioritised(graph, walks, covered):
             yield wk
 
 
+def _edge_class_fn(graph):
+    """class of an edge: the whole action label and, of the source state, the job states, cancelled flags, pending-parent counts,
+    update states, cancelled groups and instance states"""
+    node_cache = {}
+
+    def cls(e):
+        s, l, _d = e
+        n = node_cache.get(s)
+        if n is None:
+            nd = graph.nodes[s]
+            inst = nd.get("inst")
+            n = node_cache[s] = (repr(nd.get("js")), repr(nd.get("us")), repr(nd.get("canc")), repr(nd.get("jc")), repr(nd.get("npp")),
+                                 repr(sorted((str(k), str(v.get("st"))) for k, v in inst.items())) if isinstance(inst, dict) else "")
+        return (l,) + n
+
+    return cls
+
+
+def replay_class_tree(p: Program, graph: tlc.Graph, *, seed=0, deadline=None, covered=None, all_edges=False):
+    """One representative edge (a shallowest one) of every edge CLASS - (action, first argument, job / update / cancellation state of
+    the source) - executed on the real code, by a depth-first traversal of the breadth-first tree that rewinds the database in place
+    (Engine.save_state / load_state) instead of replaying prefixes: every tree node and every representative edge is executed once.
+    Returns (steps, classes done, classes total, mismatches, sqlerrors)."""
+    cls = _edge_class_fn(graph)
+    out = graph.out_edges()
+    parent, depth, children = {}, {}, {}
+    for root in graph.init:
+        parent[root], depth[root] = None, 0
+        level = [root]
+        while level:
+            nxt = []
+            for u in level:
+                for (lab, v) in sorted(out.get(u, ())):
+                    if v not in parent:
+                        parent[v], depth[v] = (u, lab), depth[u] + 1
+                        children.setdefault(u, []).append((lab, v))
+                        nxt.append(v)
+            level = nxt
+    rep = {}
+    if all_edges:
+        # second pass: every edge not exercised yet, in a random order of the tree's branches
+        rng = random.Random(seed)
+        rep = {e: e for e in set(graph.edges) if e[0] in depth and (covered is None or e not in covered)}
+        for u in children:
+            rng.shuffle(children[u])
+    else:
+        for e in graph.edges:
+            if e[0] in depth:
+                c = cls(e)
+                if c not in rep or (depth[e[0]], e) < (depth[rep[c][0]], rep[c]):
+                    rep[c] = e
+    by_src = {}
+    for e in rep.values():
+        by_src.setdefault(e[0], []).append(e)
+    needed = set()
+    for src in by_src:
+        u = src
+        while u is not None and u not in needed:
+            needed.add(u)
+            u = parent[u][0] if parent[u] is not None else None
+    covered = covered if covered is not None else set()
+    mism, steps, done = [], 0, 0
+    impl = Impl(p, seed=seed)
+    try:
+        root = graph.init[0]
+        got = impl.project()
+        d0 = diff(spec_view(graph.nodes[root]), {x: got[x] for x in COMPARE})
+        if d0:
+            return 0, 0, len(rep), [dict(path=[], label="<init>", diff=d0)], []
+        # explicit stack: (node, path labels, saved state, iterator over work items)
+        def work(u):
+            items = [("rep", e[1], e[2]) for e in sorted(by_src.get(u, ()))]
+            items += [("tree", lab, v) for lab, v in children.get(u, ()) if v in needed]
+            return iter(items)
+
+        stack = [(root, [], impl.w.eng.save_state(), work(root))]
+        while stack and len(mism) < 3:
+            if deadline is not None and time.time() > deadline:
+                break
+            u, path, saved, it = stack[-1]
+            item = next(it, None)
+            if item is None:
+                stack.pop()
+                continue
+            kind, lab, v = item
+            impl.w.eng.load_state(saved)
+            del impl.w.crashes[:]
+            name, args = tlc.parse_action_label(lab)
+            impl.apply(name, [str(a) if isinstance(a, tlaval.Sym) else a for a in args])
+            steps += 1
+            covered.add((u, lab, v))
+            got = impl.project()
+            d = diff(spec_view(graph.nodes[v]), {x: got[x] for x in COMPARE})
+            if "_extra" in got:
+                d["_extra"] = got["_extra"]
+            if impl.w.crashes:
+                d["_crash"] = {"exception": impl.w.crashes[-1].reason}
+            if d:
+                mism.append(dict(path=path + [lab], label=lab, diff=d))
+                continue
+            if kind == "rep":
+                done += 1
+            else:
+                stack.append((v, path + [lab], impl.w.eng.save_state(), work(v)))
+        sqlerrs = [dict(path=[], error=e) for e in impl.sqlerrors]
+    finally:
+        impl.close()
+    return steps, done, len(rep), mism, sqlerrs
+
+
 def replay_graph(ctx, p: Program, graph: tlc.Graph, *, seed=0, max_steps=None, footprint=None, deadline=None, check_selection=False):
     """Edge-cover walks of the TLC graph on the real code; full-state comparison after every step.
     Returns stats and a list of mismatches (dicts)."""
@@ -602,10 +744,29 @@ def replay_graph(ctx, p: Program, graph: tlc.Graph, *, seed=0, max_steps=None, f
     sqlerrs = []
     nwalks = 0
     t0 = time.time()
+    # first every edge class once (rewinding traversal), then edge-cover walks for the remaining time
+    span = None if deadline is None else max(0.0, deadline - t0)
+    # (the class pass may overrun the program's share of the budget on a slow machine: what a check detects must not depend on load)
+    cdl = None if deadline is None else t0 + 2.5 * span
+    csteps, cdone, ctotal, cmism, cerrs = replay_class_tree(p, graph, seed=seed, deadline=cdl, covered=covered)
+    steps += csteps
+    mism += cmism
+    sqlerrs += cerrs
+    class_stats = {"edge_classes": ctotal, "edge_classes_exercised": cdone, "class_steps": csteps}
+    if not mism:
+        # then every remaining edge, by the same rewinding traversal, until three quarters of the budget are used
+        edl = None if deadline is None else t0 + 0.75 * span
+        esteps, _edone, _etotal, emism, eerrs = replay_class_tree(p, graph, seed=seed + 1, deadline=edl, covered=covered, all_edges=True)
+        steps += esteps
+        mism += emism
+        sqlerrs += eerrs
+        class_stats["rewinding_steps"] = csteps + esteps
     out_edges = graph.out_edges() if check_selection else {}
     sel_checked = set()
     sel_problems = []
     for wk in prioritised(graph, walks, covered):
+        if mism:
+            break
         if max_steps is not None and steps >= max_steps:
             break
         if deadline is not None and time.time() > deadline:
@@ -654,7 +815,7 @@ def replay_graph(ctx, p: Program, graph: tlc.Graph, *, seed=0, max_steps=None, f
         if len(mism) >= 3:
             break
     stats = dict(walks=nwalks, steps=steps, edges_covered=len(covered), edges=len(set(graph.edges)), nodes=len(graph.nodes),
-                 wall_s=round(time.time() - t0, 1))
+                 wall_s=round(time.time() - t0, 1), **class_stats)
     if check_selection:
         stats["states_with_selection_checked"] = len(sel_checked)
         stats["selection_problems"] = sel_problems[:5]
